@@ -34,6 +34,10 @@ impl InputsMap {
     pub uninterp spec fn m(&self) -> Map<TransactionInput, (TxBuilderInput, Option<ScriptHash>)>;
     #[verifier::external_body] pub fn insert(&mut self, k: TransactionInput, v: (TxBuilderInput, Option<ScriptHash>)) -> (r: Option<(TxBuilderInput, Option<ScriptHash>)>)
         ensures final(self).m() == old(self).m().insert(k, v) { unimplemented!() }
+    /// BTreeMap::len / is_empty / contains_key (std, ASSUMED): over the map view
+    #[verifier::external_body] pub fn len(&self) -> (r: usize) ensures self.m().dom().finite(), r == self.m().dom().len() { unimplemented!() }
+    #[verifier::external_body] pub fn is_empty(&self) -> (r: bool) ensures self.m().dom().finite(), r == (self.m().dom().len() == 0) { unimplemented!() }
+    #[verifier::external_body] pub fn contains_key(&self, k: &TransactionInput) -> (r: bool) ensures r == self.m().contains_key(*k) { unimplemented!() }
 }
 #[verifier::external_body] pub struct BootstrapSet { _p: core::marker::PhantomData<u8> }
 impl BootstrapSet {
